@@ -15,7 +15,7 @@ CFG = {
                                  "C06_tie", "C06_roundtrip_src", "C06_shape_src",
                                  "C06_text_roundtrip", "C06_text_decode", "C06_numfmt_int",
                                  "C06_text_cert", "C06_text_cert_complete",
-                                 "C06_decode_sound", "C06_decode_iff", "C06_decode_unknown_type", "C06_decode_foreign_members", "C06_decode_last_wins",
+                                 "C06_decode_sound", "C06_decode_iff", "C06_decode_unknown_type", "C06_error_text", "C06_decode_error_text", "C06_decode_foreign_members", "C06_decode_last_wins",
                                  "C06_text_value", "C06_denotes_unique",
                                  "C06_unmarshal_lit", "C06_decode_lit", "C06_decode_lit_overflow", "C06_decode_lit_skipped",
                                  "C06_decode_lit_sound", "C06_decode_lit_conservative",
